@@ -31,6 +31,7 @@ fn main() {
         "C06" => verif_harness::props::c06::run(&cfg),
         "C15" => verif_harness::props::c15::run(&cfg),
         "C14" => verif_harness::props::c14::run(&cfg),
+        "C17" => verif_harness::props::c17::run(&cfg),
         "C16" => verif_harness::props::c16::run(&cfg),
         "C02" => verif_harness::props::c02::run(&cfg),
         "C03" => verif_harness::props::c03::run(&cfg),
